@@ -417,7 +417,7 @@ func init() {
 			pool.Map(raw, func(i int, b []byte, err error) {
 				var r c14Result
 				if err != nil {
-					r.Viol = []string{"worker crashed: " + err.Error()}
+					r.Viol = explore.CrashViol(err)
 				} else {
 					json.Unmarshal(b, &r)
 				}
